@@ -6,7 +6,9 @@ import (
 	"context"
 	"encoding/json"
 	"fmt"
+	"os"
 	"regexp"
+	"runtime"
 	"sort"
 	"strconv"
 	"strings"
@@ -21,7 +23,14 @@ import (
 	"verifharness/vlib"
 )
 
-func TestMain(m *testing.M) { vlib.Main(m) }
+func TestMain(m *testing.M) {
+	if os.Getenv("VERIF_FUZZING") == "" {
+		// the cases run one after the other; with many Ps the garbage collector's workers only
+		// fight the other checks for the cores (measured: 2 Ps halve the CPU time of a shard)
+		runtime.GOMAXPROCS(2)
+	}
+	vlib.Main(m)
+}
 
 var ev = vlib.NewEvidence("C18",
 	"case = (subject, input bytes): subject is one of the 24 bundled analyzers, a bundled tokenizer, a tokenizer + char filter, a tokenizer (+ optional gap-making stop/length/keyword stage) + ONE token filter with generated parameters, or a pipeline of 2-4 filters; "+
@@ -455,7 +464,7 @@ func TestC18Analyzers(t *testing.T) {
 	vlib.Check(t, 9000, 40000, func(rt *rapid.T) {
 		name := rapid.SampledFrom(names).Draw(rt, "analyzer")
 		tx := genText(rt)
-		c := mkCase(Spec{Kind: "analyzer", Analyzer: name}, tx.Bytes, rapid.IntRange(0, 2).Draw(rt, "rt") == 0, rapid.Bool().Draw(rt, "store"))
+		c := mkCase(Spec{Kind: "analyzer", Analyzer: name}, tx.Bytes, rapid.IntRange(0, 5).Draw(rt, "rt") == 0, rapid.Bool().Draw(rt, "store"))
 		f, st := evaluate(c)
 		record("analyzers", c, &tx, f, st, "an:"+name)
 		vlib.Report(rt, ev, "case", c, f)
@@ -464,10 +473,10 @@ func TestC18Analyzers(t *testing.T) {
 
 // TestC18Tokenizers: each bundled tokenizer on its own; Term == input[Start:End].
 func TestC18Tokenizers(t *testing.T) {
-	vlib.Check(t, 3000, 15000, func(rt *rapid.T) {
+	vlib.Check(t, 2500, 15000, func(rt *rapid.T) {
 		tx := genText(rt)
 		tk := genTokenizer(rt)
-		c := mkCase(Spec{Kind: "tokenizer", Tokenizer: &tk}, tx.Bytes, rapid.IntRange(0, 5).Draw(rt, "rt") == 0, rapid.Bool().Draw(rt, "store"))
+		c := mkCase(Spec{Kind: "tokenizer", Tokenizer: &tk}, tx.Bytes, rapid.IntRange(0, 9).Draw(rt, "rt") == 0, rapid.Bool().Draw(rt, "store"))
 		f, st := evaluate(c)
 		record("tokenizers", c, &tx, f, st, "tok:"+tk.Name)
 		vlib.Report(rt, ev, "case", c, f)
@@ -476,7 +485,7 @@ func TestC18Tokenizers(t *testing.T) {
 
 // TestC18CharFilters: char filters (one or two) in front of a tokenizer.
 func TestC18CharFilters(t *testing.T) {
-	vlib.Check(t, 2000, 10000, func(rt *rapid.T) {
+	vlib.Check(t, 1500, 10000, func(rt *rapid.T) {
 		tx := genText(rt)
 		tk := genTokenizer(rt)
 		n := 1
@@ -490,7 +499,7 @@ func TestC18CharFilters(t *testing.T) {
 			cfs = append(cfs, cf)
 			subs = append(subs, "cf:"+cf.Name)
 		}
-		c := mkCase(Spec{Kind: "charfilter", Tokenizer: &tk, Char: cfs}, tx.Bytes, rapid.IntRange(0, 5).Draw(rt, "rt") == 0, rapid.Bool().Draw(rt, "store"))
+		c := mkCase(Spec{Kind: "charfilter", Tokenizer: &tk, Char: cfs}, tx.Bytes, rapid.IntRange(0, 9).Draw(rt, "rt") == 0, rapid.Bool().Draw(rt, "store"))
 		f, st := evaluate(c)
 		record("charfilters", c, &tx, f, st, subs...)
 		vlib.Report(rt, ev, "case", c, f)
@@ -500,7 +509,7 @@ func TestC18CharFilters(t *testing.T) {
 // TestC18Filters: one token filter with generated parameters on the stream of a tokenizer
 // (optionally behind a char filter and a gap-making/marking stage); all clauses.
 func TestC18Filters(t *testing.T) {
-	vlib.Check(t, 9000, 40000, func(rt *rapid.T) {
+	vlib.Check(t, 6000, 40000, func(rt *rapid.T) {
 		tx := genText(rt)
 		tk := genTokenizer(rt)
 		s := Spec{Kind: "filter", Tokenizer: &tk}
@@ -522,7 +531,7 @@ func TestC18Filters(t *testing.T) {
 			s.Pre = &p
 			subs = append(subs, "pre:"+p.Name)
 		}
-		c := mkCase(s, tx.Bytes, rapid.IntRange(0, 5).Draw(rt, "rt") == 0, rapid.Bool().Draw(rt, "store"))
+		c := mkCase(s, tx.Bytes, rapid.IntRange(0, 9).Draw(rt, "rt") == 0, rapid.Bool().Draw(rt, "store"))
 		f, st := evaluate(c)
 		record("filters", c, &tx, f, st, subs...)
 		vlib.Report(rt, ev, "case", c, f)
@@ -532,7 +541,7 @@ func TestC18Filters(t *testing.T) {
 // TestC18Pipelines: 2-4 token filters behind a tokenizer and 0-2 char filters; judged for
 // totality, determinism, increments and the round trip, not for offsets.
 func TestC18Pipelines(t *testing.T) {
-	vlib.Check(t, 3000, 15000, func(rt *rapid.T) {
+	vlib.Check(t, 2000, 15000, func(rt *rapid.T) {
 		tx := genText(rt)
 		tk := genTokenizer(rt)
 		s := Spec{Kind: "pipeline", Tokenizer: &tk}
@@ -547,7 +556,7 @@ func TestC18Pipelines(t *testing.T) {
 			s.Filters = append(s.Filters, fl)
 			subs = append(subs, "pipe-flt:"+fl.Name)
 		}
-		c := mkCase(s, tx.Bytes, rapid.IntRange(0, 5).Draw(rt, "rt") == 0, rapid.Bool().Draw(rt, "store"))
+		c := mkCase(s, tx.Bytes, rapid.IntRange(0, 9).Draw(rt, "rt") == 0, rapid.Bool().Draw(rt, "store"))
 		f, st := evaluate(c)
 		record("pipelines", c, &tx, f, st, subs...)
 		vlib.Report(rt, ev, "case", c, f)
